@@ -94,10 +94,9 @@ def _build(spec, task_overrides, ns, m):
         else:
             m.wps.append(ns.BaseWorkplace(w["name"], ID=fresh(w["id"]), facility_list=facs, max_space_size=w["max_space"]))
     for k, w in enumerate(spec["wps"]):
-        if w.get("ctor_inputs") and all(j < k for j in w["inputs"]):
-            continue
-        for j in w["inputs"]:
-            m.wps[k].append_input_workplace(m.wps[j])
+        if not (w.get("ctor_inputs") and all(j < k for j in w["inputs"])):
+            for j in w["inputs"]:
+                m.wps[k].append_input_workplace(m.wps[j])
         for i in w["targets"]:
             m.wps[k].append_targeted_task(m.tasks[i])
     for k, tm in enumerate(spec["teams"]):
